@@ -233,7 +233,9 @@ class Model:
             for p in self.idx:
                 q = parent(p)
                 while q != "":
-                    if q in self.idx:
+                    # (an index path below another one is only possible
+                    # when the upper one became a directory on disk)
+                    if q in self.idx and self.kind(q) != "directory":
                         return False
                     if self.kind(q) not in (None, "directory"):
                         return False
@@ -449,9 +451,11 @@ class Model:
             for q in self.under(p, self.idx):
                 del self.idx[q]
         for q in self.under(p):
-            if self.disk[q][0] == "symlink" and (q == p or q in was):
-                if not keep and self.isdir(q):
-                    self.flags.add("remove-link-to-directory")
+            if self.fmt == "bzr" and self.disk[q][0] == "symlink" and (
+                    q == p or q in was) and not keep and self.isdir(q) \
+                    and self.children(self.resolve(q)):
+                # isdir() through the link, then rmtree on the link
+                self.flags.add("remove-link-to-nonempty-directory")
         if self.fmt == "bzr" and any(inside(p, q)
                                      for q in self.looping_links()):
             self.flags.add("remove-looping-link")
@@ -460,7 +464,68 @@ class Model:
         return "ok"
 
     # -- rename_one / move
-    def op_rename_one(self, a, b):
+    def op_mv_disk(self, a, b):
+        """os.rename by hand, the tree is not told."""
+        if self.kind(a) is None or self.kind(b) is not None or \
+                not self.can_os_rename(a, b):
+            raise ModelError(["mv_disk", a, b])
+        self.mv_tree(a, b)
+        return "ok"
+
+    def op_lock(self, mode):
+        return "ok"
+
+    def op_unlock(self):
+        return "ok"
+
+    def _after_bzr(self, a, b, entry):
+        """after=True: only the versioning follows; b must exist."""
+        ip = self.ipaths()
+        if a not in ip or a == "":
+            if entry == "rename_one" and a in self.ipaths(self.basis):
+                raise ModelError(["resurrecting rename", a])
+            return "refuse"
+        if b in ip:
+            raise ModelError(["after-rename onto a versioned path", b])
+        if self.kind(b) is None:
+            return "refuse"
+        bp = parent(b)
+        if bp not in ip:
+            return "refuse"
+        if inside(a, b) or inside(b, a):
+            raise ModelError(["after-rename into itself", a, b])
+        self._certain(ip[bp], b)
+        if self.inv[ip[bp]][2] != "directory":
+            raise ModelError(["rename below stored non-directory", b])
+        t = ip[a]
+        self.inv[t][0] = ip[bp]
+        self.inv[t][1] = base(b)
+        return "ok"
+
+    def _after_git(self, a, b):
+        if not self.is_versioned(a) or self.is_versioned(b):
+            raise ModelError(["git after-rename outside the model", a, b])
+        if self.kind(b) is None:
+            return "refuse"
+        if b in self.basis_paths():
+            return "refuse"
+        if inside(a, b) or inside(b, a):
+            raise ModelError(["after-rename into itself", a, b])
+        k = self.kind(b)
+        if (k == "directory") != (a not in self.idx):
+            raise ModelError(["git after-rename across kinds", a, b])
+        if k != "directory":
+            del self.idx[a]
+            self.idx[b] = k
+        else:
+            self.mv_tree(a, b, self.idx)
+        return "ok"
+
+    def op_rename_one(self, a, b, after=False):
+        if after:
+            if self.fmt == "git":
+                return self._after_git(a, b)
+            return self._after_bzr(a, b, "rename_one")
         if self.fmt == "git":
             return self._rename_git(a, b)
         ip = self.ipaths()
@@ -526,11 +591,8 @@ class Model:
         if not a_on or b_on:
             return "refuse"
         if inside(a, b):
-            self.flags.add("git-rename-os-error")
             return "refuse"
         if not self.can_os_rename(a, b):
-            if self.kind(parent(b)) is not None:
-                self.flags.add("git-rename-os-error")
             return "refuse"
         k = self.kind(a)
         if k != "directory" and a not in self.idx:
@@ -545,12 +607,12 @@ class Model:
             self.mv_tree(a, b, self.idx)
         return "ok"
 
-    def op_move(self, srcs, to_dir):
+    def op_move(self, srcs, to_dir, after=False):
         if not srcs:
             raise ModelError("empty move")
         work = self.clone()
         for i, a in enumerate(srcs):
-            r = work._move_one(a, to_dir)
+            r = work._move_one(a, to_dir, after)
             if r != "ok":
                 if i > 0:
                     raise ModelError(["multi-path move refused midway", srcs])
@@ -558,19 +620,24 @@ class Model:
         self.__dict__.update(work.__dict__)
         return "ok"
 
-    def _move_one(self, a, to_dir):
+    def _move_one(self, a, to_dir, after=False):
         if not self.isdir(to_dir):
             return "refuse"
         if self.kind(to_dir) == "symlink":
             raise ModelError(["move into a symlinked directory", to_dir])
         b = join(to_dir, base(a))
         if self.fmt == "git":
-            return self._rename_git(a, b)
+            return self._after_git(a, b) if after else \
+                self._rename_git(a, b)
         ip = self.ipaths()
         if to_dir in ip:
             self._certain(ip[to_dir], to_dir)
         if to_dir not in ip or self.inv[ip[to_dir]][2] != "directory":
             return "refuse"
+        if after:
+            if b in ip:
+                return "refuse"
+            return self._after_bzr(a, b, "move")
         if a not in ip or a == "":
             return "refuse"
         if b in ip:
@@ -594,7 +661,8 @@ class Model:
         self.commits += 1
         if self.fmt == "git":
             nb = {}
-            if any(self.kind(p) == "directory" for p in self.idx):
+            if any(self.kind(p) == "directory" and p not in self.gbasis
+                   for p in self.idx):
                 self.flags.add("dirified-index-entry")
             self._git_status_flags()
             for p in sorted(self.idx):
@@ -814,7 +882,10 @@ class Model:
                     return None
                 return "added" if self.kind(p) in nondir + (None,) else None
             if p in self.idx and p in self.gbasis:
-                return "changed" if self.kind(p) in nondir + (None,) else None
+                # (a kind change in place is an addition plus a removal for
+                # git: revert keeps the added file's content as p.moved)
+                return "changed" if self.kind(p) in (
+                    self.gbasis[p][0], None) else None
             if p in self.gbasis and not self.is_versioned(p) and \
                     self.kind(p) is None:
                 return "removed"
